@@ -271,6 +271,8 @@ def fam_slices(tier):
         for b in range(-lim, lim + 1):
             rules.append("PEEK[%d..%d]" % (a, b))
     rules += ["PEEK", "POP", "DROP", "PEEK_ALL", "POP_ALL", "PEEK[..]", "POP ~ POP", "DROP ~ PEEK", "PEEK ~ PEEK", "POP_ALL ~ PEEK?", "DROP ~ DROP ~ DROP ~ DROP ~ DROP?"]
+    # repetitions whose iterations are zero-width but change the stack: they go on until the stack is empty
+    rules += ["DROP*", "DROP+ ~ PEEK?", "DROP{2,} ~ PEEK_ALL", "POP* ~ \"a\"?", "(DROP ~ PEEK?)*", "POP+", "(!\"c\" ~ POP)* ~ PEEK_ALL"]
     # the stack the built-ins see after abandoned attempts that popped (nested optionals, choice in optional, predicate in optional)
     for op in ["PEEK_ALL", "PEEK[0..1]", "POP", "PEEK[-1..]", "DROP ~ PEEK?", "POP_ALL"]:
         rules.append('(POP? ~ "x")? ~ ' + op)
@@ -417,8 +419,11 @@ def fam_get(tier):
               "!(x ~ x) ~ x", "&(x | y) ~ (y | x)", "PUSH(x | y) ~ PEEK", "(PUSH(x))* ~ POP_ALL", "x ~ (y ~ x)*", "(x ~ y)* ~ x", "(x ~ (y ~ (x ~ y?)?)?)", "((((x)?)*)?)",
               "(x | y)+ ~ z?", "(z ~ x)? ~ (z ~ y)?", "(x ~ \"-\" ~ x) | x", "x ~ \"-\"? ~ y ~ \"-\"? ~ x", "(\"-\" ~ x)* ~ (\"-\" | y)", "v", "v ~ x", "(v | x)*",
               "x ~ x ~ (x ~ y ~ z)", "(\"-\" ~ x | \"-\"? ~ x ~ x | x ~ y ~ w)", "x ~ \"-\" ~ x ~ &(x ~ y ~ z) ~ ANY*", "x? ~ (\"-\" ~ x)? ~ (y ~ x ~ z)?",
-              "x ~ x ~ x ~ (y | x ~ y ~ z ~ w)", "(x | y) ~ (x | y) ~ (w ~ x ~ y ~ z)?", "x* ~ \"-\" ~ x* ~ (y ~ z ~ x)*", "y ~ x ~ y ~ (x ~ y ~ z)", "(x ~ (x ~ (x ~ y ~ z)))"]
-    hdr = "\n".join([rule("x", '"a"'), rule("y", '"b"'), rule("z", '"c"', "silent"), rule("w", '"d"', "atomic"), rule("v", 'x ~ y?', "silent")])
+              "x ~ x ~ x ~ (y | x ~ y ~ z ~ w)", "(x | y) ~ (x | y) ~ (w ~ x ~ y ~ z)?", "x* ~ \"-\" ~ x* ~ (y ~ z ~ x)*", "y ~ x ~ y ~ (x ~ y ~ z)", "(x ~ (x ~ (x ~ y ~ z)))",
+              # iterations that consume nothing but pop: every one of them is a node of the Vec
+              "PUSH(e) ~ PUSH(e) ~ p*", "PUSH(e) ~ PUSH(e) ~ \"-\"? ~ (p ~ x?)+", "PUSH(e) ~ (PUSH(e) ~ p ~ p?)? ~ p*"]
+    hdr = "\n".join([rule("x", '"a"'), rule("y", '"b"'), rule("z", '"c"', "silent"), rule("w", '"d"', "atomic"), rule("v", 'x ~ y?', "silent"),
+                     rule("e", '"a"?'), rule("p", "POP")])
     kinds = ["normal", "silent", "compound", "nonatomic", "normal"]
     out = []
     for ws in (False, True):
@@ -637,7 +642,12 @@ def fam_odd(tier):
                               'nl4 = { "x" ~ !NEWLINE ~ ANY }\nnl5 = @{ ("x" | NEWLINE){2} }\nnl6 = { (nl2 | "x" ~ "\\r")+ }',
               alphabet=[120, 13, 10, 121], maxlen=3 if tier == "quick" else 4,
               inputs=[cps(x) for x in ["ab\r\ncd\r\n", "ab\ncd\r\n\r\n", "x\r\ny", "x\r\n", "\r\n\r\n", "ab\rcd\n", "x\r\nx\rx\n", "x\rx\r\n"]])
-    return [g, e1, e2, e3]
+    # a repetition reached on the check path (atomic caller, negative predicate, check API) skips only *between* its elements
+    e4 = dict(id="odd4", text='WHITESPACE = _{ " " }\nitem = { \'a\'..\'c\' }\ntail = !{ item* }\nmain = @{ "x" ~ tail }\nneg = { !(item* ~ "!") ~ ANY* }\n'
+                              'cnt = !{ item{2} ~ item+ }\nmain2 = ${ "x" ~ cnt? ~ ANY* }\nlead = { item* ~ "!" }',
+              alphabet=cps("xa !"), maxlen=3 if tier == "quick" else 4,
+              inputs=[cps(x) for x in ["x a b", "xa b", " a!", " a b !", "a b!", "x a b c", "xa b c", " a", "  !", "x  a", "x"]])
+    return [g, e1, e2, e3, e4]
 
 
 def fam_memo(tier):
